@@ -2,7 +2,7 @@
    Model: Convert.convert (utils.scale_raw + Store.set_val_real with raw=True), with the
    route only selecting the vdtype the raw value is cast to. *)
 From Coq Require Import ZArith List Bool.
-From FxpVerif Require Import Spec NP Store ProofsCore ProofsStore Convert ProofsConvert.
+From FxpVerif Require Import Spec NP Store ProofsCore ProofsStore Convert ProofsConvert ProofsExact.
 Import ListNotations.
 Open Scope Z_scope.
 
@@ -10,23 +10,16 @@ Open Scope Z_scope.
    set_val, call, indexed assignment — with the source's vdtype), every pair of core
    formats, all 10 destination mode pairs, arrays of any length: the destination holds the
    exact source value quantized into the destination, with the flags of that quantization.
-   Side condition vd_ok: on the Fxp-input route with a FLOAT source vdtype and a positive
-   shift, the rescaled codes stay below 2^53 (true whenever the value does not overflow
-   the destination); the remaining corner is covered by the correspondence run only. *)
+   No side condition on the value type of the source any more: rescaled integer codes of more
+   than 53 bits are never cast to a float value type (set_val switches to Python integers). *)
 Theorem C10_routes : forall rt fs fd r o codes,
-  core_fmt fs -> core_fmt fd -> Forall (in_range fs) codes -> vd_ok rt (nf fd - nf fs) codes ->
+  core_fmt fs -> core_fmt fd -> Forall (in_range fs) codes ->
   exists w, convert rt fs codes fd r o = Ok w /\
     w_codes w = map (fun c => quantize fd r o (val_of_code fs c)) codes /\
     w_ovf w = existsb (fun c => ovf_cond fd r (val_of_code fs c)) codes /\
     w_unf w = existsb (fun c => unf_cond fd r (val_of_code fs c)) codes.
 Proof. exact convert_core. Qed.
 Print Assumptions C10_routes.
-
-(* routes that never need the side condition *)
-Theorem C10_routes_array_and_int : forall (fs fd : fmt) (codes : list Z),
-  vd_ok RArray (nf fd - nf fs) codes /\ vd_ok (RFxpInput VInt) (nf fd - nf fs) codes.
-Proof. intros. split; exact I. Qed.
-Print Assumptions C10_routes_array_and_int.
 
 (* sequences of conversions of any length *)
 Theorem C10_chain : forall steps fs codes,
@@ -41,6 +34,27 @@ Theorem C10_preserves_representable : forall fs fd r o c, 1 <= nw fd ->
   dy_eqb (val_of_code fd (quantize fd r o (val_of_code fs c))) (val_of_code fs c) = true.
 Proof. exact conv_preserves. Qed.
 Print Assumptions C10_preserves_representable.
+
+(* sources of ANY width (64-bit and wider objects included), destinations of any width: when some source code has
+   more than 53 bits and the destination has fewer fraction bits, the codes travel as exact rationals and are
+   rounded once by the destination's mode — codes, the three flags of the write *)
+Theorem C10_wide_codes_exact : forall rt fs fd r o codes, 1 <= nw fd -> nf fd - nf fs < 0 ->
+  existsb (fun c => 2^53 <=? Z.abs c) codes = true ->
+  convert rt fs codes fd r o = Ok (spec_wres fd r o (map (val_of_code fs) codes)).
+Proof. exact convert_exact. Qed.
+Print Assumptions C10_wide_codes_exact.
+
+(* hence: every conversion to fewer fraction bits into a core destination word, from a source of any width
+   holding any codes *)
+Theorem C10_fewer_fraction_bits_any_source : forall rt fs fd r o codes, 1 <= nw fd <= 52 -> -1074 <= nf fd - nf fs < 0 -> codes <> [] ->
+  convert rt fs codes fd r o = Ok (spec_wres fd r o (map (val_of_code fs) codes)).
+Proof. exact convert_fewer_fraction_bits. Qed.
+Print Assumptions C10_fewer_fraction_bits_any_source.
+
+Example C10_wide_nonvacuous :
+  let fs := {| sg := true; nw := 72; nf := 16 |} in let fd := {| sg := true; nw := 16; nf := 0 |} in
+  convert RArray fs [2^61 + 1; -3] fd Floor Wrap = Ok {| w_codes := [0; -1]; w_ovf := true; w_unf := false; w_inacc := true |}.
+Proof. vm_compute. reflexivity. Qed.
 
 Example C10_nonvacuous :
   let fs := {| sg := true; nw := 8; nf := 0 |} in let fd := {| sg := true; nw := 8; nf := -2 |} in
